@@ -2,17 +2,19 @@
 from rules.common import *
 
 TECHNIQUE = ("static analysis: atomic write-site classification (CAS-only, guarded increase), encode-table extraction, "
-             "sibling agreement of the termination fan-out, poison-write presence on MIR")
+             "sibling agreement of the termination fan-out, poison-write presence on MIR, Err-edge effect check (no Pending / Ok) "
+             "of every application-facing operation on a poisonable cell")
 LEVEL_TEXT = ("Static analysis of the type-checked MIR of /repo: every atomic operation on the life-cycle code is "
               "enumerated and must be a compare-exchange from 0 or one dominated by `new > old`; the state encoding is "
               "extracted as a table and must be strictly increasing along the life cycle; the terminating error is set "
               "only on the success edge of a state update; enter_closing and enter_draining must poison the same "
               "component set, covering every component that has a poisoning method; each poisoning method must store "
-              "Err into its cell. Necessary structural conditions on all paths; promptness and idle-timeout timing are "
+              "Err into its cell; each application-facing operation (read, write, flush, shutdown, open, accept, datagram send/recv) "
+              "and both data loaders must branch on the cell and build neither Poll::Pending nor Ok on its Err edge. Necessary structural conditions on all paths; promptness and idle-timeout timing are "
               "not decided.")
 NOT_DECIDED = ["promptness of completion after close (scheduling)", "idle-timeout timing ('not before')",
-               "that every public stream/datagram operation observes the poisoned cell (only the poison write and the "
-               "fan-out are decided here; per-operation wake-ups are C16-W4)"]
+               "that a sleeper parked before the failure is woken (C16-W4 decides the wake-up fan-out; here only that an operation "
+               "polled after the poison write sees the error)"]
 
 ST = "qconnection::state::ArcConnState"
 LIFECYCLE = ["Attempted", "HandshakeStarted", "HandshakeComplete", "HandshakeConfirmed", "Closing", "Draining", "Closed"]
@@ -93,6 +95,49 @@ def poison_writes(body):
     return out
 
 
+def _strip_ref(ty):
+    ty = ty.strip()
+    while ty.startswith("&") or ty.startswith("mut "):
+        ty = ty[1:].strip() if ty.startswith("&") else ty[4:].strip()
+    return ty
+
+
+def _is_cell_ty(ty):
+    t = _strip_ref(ty)
+    return (t.startswith("core::result::Result<") and t.endswith(", qbase::error::Error>")
+            and not t.startswith("core::result::Result<&") and not t.startswith("core::result::Result<()"))
+
+
+def cell_inspections(b):
+    """places where a `Result<Component, Error>` cell (or a guard wrapper's Result<Guard, Error>) is tested:
+    [{how, switch, err (blocks of the Err edge), line, ty}]"""
+    out = []
+    for (i, j, p, rv, line) in b.assigns():
+        if rv[0] == "disc":
+            q = rv[1]
+            if all(e == "*" for e in q[1:]) and _is_cell_ty(b.local_ty(q[0])):
+                for sb in b.live_blocks():
+                    t = b.term(sb)
+                    if t["t"] == "switch" and op_place(t["on"]) == p:
+                        err = set(tgt for v, tgt in t["cases"] if int(v) == 1)
+                        if 1 not in set(int(v) for v, _ in t["cases"]):
+                            err.add(t["else"])
+                        out.append({"how": "match", "switch": sb, "err": err, "line": line, "ty": b.local_ty(q[0])})
+    for i, t in b.calls():
+        nm = callee(t)
+        if re.search(r"result::Result(<.*>|::<.*>)?::(as_mut|as_ref|is_ok|is_err)$", nm) and t["args"]:
+            p = op_place(t["args"][0])
+            if p is not None and _is_cell_ty(b.local_ty(p[0])):
+                oe = outcome_edges(b, i)
+                out.append({"how": nm.split("::")[-1] + "()", "switch": oe and oe["switch"], "err": oe and oe["err"],
+                            "line": t["line"], "ty": b.local_ty(p[0])})
+        elif len(t["dest"]) == 1 and _is_cell_ty(b.local_ty(t["dest"][0])) and "Guard" in b.local_ty(t["dest"][0]):
+            oe = outcome_edges(b, i)
+            out.append({"how": "::".join(short_name(nm).split("::")[-2:]) + "()", "switch": oe and oe["switch"], "err": oe and oe["err"],
+                        "line": t["line"], "ty": b.local_ty(t["dest"][0])})
+    return out
+
+
 def run(ctx):
     prog = ctx.prog
     ctx.rule("R1", "life-cycle code is monotone: every atomic op on ArcConnState.state is load or compare_exchange; a CAS is "
@@ -101,6 +146,8 @@ def run(ctx):
                    "enter_draining only when the previous state was not Closing")
     ctx.rule("R3", "termination fan-out: enter_closing and enter_draining poison the same components, covering every "
                    "Components field that has a poisoning method")
+    ctx.rule("R5", "every application-facing stream / datagram operation and both data-emitting loaders inspect the poisonable cell, and "
+                   "on its Err state leave with an error: no Poll::Pending and no Ok(..) is produced on the Err edge")
     ctx.rule("R4", "each poisoning method stores Err into its cell (or delegates to poisoning methods) on the path where the cell was Ok")
 
     # ---------------------------------------------------------------- R1
@@ -260,6 +307,50 @@ def run(ctx):
         for rx in subs:
             ok = any(calls(bb, rx) for bb in bodies)
             ctx.ob("R4", "%s|delegates to %s" % (b.short, rx.rstrip("$")), ok, b.where(), "call present: %s" % ok)
+    # ---------------------------------------------------------------- R5
+    OPS = {
+        "qrecovery::send::writer::Writer::poll_ready": ["Sender"], "qrecovery::send::writer::Writer::write": ["Sender"],
+        "qrecovery::send::writer::Writer::poll_write": ["Sender"], "qrecovery::send::writer::Writer::poll_flush": ["Sender"],
+        "qrecovery::send::writer::Writer::poll_shutdown": ["Sender"],
+        "qrecovery::recv::reader::Reader::poll_read": ["Recver"], "qrecovery::recv::reader::Reader::poll_next": ["Recver"],
+        "qrecovery::streams::listener::ArcListener::poll_accept_bi_stream": ["Listener"],
+        "qrecovery::streams::listener::ArcListener::poll_accept_uni_stream": ["Listener"],
+        "qrecovery::streams::raw::DataStreams::poll_open_bi_stream": ["ArcOutputGuard", "ArcInputGuard"],
+        "qrecovery::streams::raw::DataStreams::poll_open_uni_stream": ["ArcOutputGuard"],
+        "qdatagram::reader::DatagramReader::poll_recv": ["RawDatagarmReader"],
+        "qdatagram::writer::DatagramWriter::send_bytes": ["RawDatagramWriter"],
+        "qdatagram::reader::DatagramIncoming::new_reader": ["RawDatagarmReader"],
+        "qdatagram::writer::DatagramOutgoing::new_writer": ["RawDatagramWriter"],
+        # "no further application data is emitted": the two loaders packet assembly calls
+        "qrecovery::send::outgoing::Outgoing::try_load_data_into": ["Sender"],
+        "qdatagram::writer::DatagramOutgoing::try_load_data_into": ["RawDatagramWriter"],
+    }
+    for name, cells in OPS.items():
+        b = ctx.anchor("R5", name)
+        if not b:
+            continue
+        ins = cell_inspections(b)
+        for cell in cells:
+            mine = [x for x in ins if re.search(r"\b%s\b" % cell, x["ty"])]
+            if not mine:
+                ctx.ob("R5", "%s|observes the %s cell" % (b.short, cell), False, b.where(),
+                       "no inspection of a Result<%s.., Error> cell found: the operation cannot see that the connection failed" % cell)
+                continue
+            for x in mine[:1] if len(mine) == 1 else mine:
+                if not x["err"]:
+                    ctx.ob("R5", "%s|%s Err state ends the operation with the error" % (b.short, cell), False, b.where(x["line"]),
+                           "the cell is inspected (%s) but its outcome never branches" % x["how"])
+                    continue
+                reach = b.reachable_from(list(x["err"]), avoid={x["switch"]})
+                pend = [i for (i, j, rv, l) in agg_sites(b, r"task::poll::Poll$", "Pending") if i in reach]
+                oks = [i for (i, j, rv, l) in agg_sites(b, r"^core::result::Result$", "Ok") if i in reach]
+                errs = [i for (i, j, rv, l) in agg_sites(b, r"^core::result::Result$", "Err") if i in reach]
+                fr = [i for i, t in b.calls() if i in reach and re.search(r"from_residual$", callee(t))]
+                ok = not pend and not oks and bool(errs or fr)
+                ctx.ob("R5", "%s|%s Err state ends the operation with the error" % (b.short, cell), ok, b.where(x["line"]),
+                       "inspection by %s; on the Err edge: Poll::Pending built at %s, Ok(..) built at %s, Err/`?` at %s — an operation that "
+                       "parks or succeeds on a poisoned cell blocks forever (nobody will wake it again) or keeps accepting/emitting "
+                       "data after the connection failed" % (x["how"], pend, oks, errs + fr))
     ctx.assume("tokio::sync::SetOnce::set fails (does not overwrite) when already set")
 
 
